@@ -247,6 +247,7 @@ pub fn run(ctx: &Ctx, prop: &'static str) -> i32 {
         exhaustive: Some(true),
         extra: vec![("exhaustive_scope".into(), J::s("every write boundary of every history run; histories themselves are sampled"))],
         min_distinct: 100,
+        min_counters: if prop == "C09" { vec![("obligation_checks", 1000), ("library_remounts", 100)] } else { vec![("crash_images_checked", 1000), ("library_remounts", 100)] },
     };
     if let Some(rp) = &ctx.replay {
         let idx = rp.get("case").and_then(|c| c.get("history_index")).and_then(|x| x.as_u64()).unwrap_or(0);
